@@ -711,6 +711,15 @@ fn expectation(d: &Decoded, cov: &mut Cov, alt_reading: bool) -> Result<Expectat
                 _ => Err("no output".to_string()),
             }
         };
+        // a source that is not valid UTF-8 cannot be read as text: it has to be reported, whatever the reference run says
+        if let Item::File(bytes) = &n.item {
+            if std::str::from_utf8(bytes).is_err() && res.is_ok() {
+                return Err(Verdict::violated(
+                    "invalid-utf8-source-processed",
+                    format!("`{}` holds bytes that are not valid UTF-8 ({:?}...) but processing it alone succeeds and writes an output instead of reporting the file", n.path, &bytes[..bytes.len().min(24)]),
+                ));
+            }
+        }
         alone.insert(n.path.clone(), res);
     }
     // the reference runs must not have touched anything else
